@@ -1784,17 +1784,12 @@ impl SparqlDatabase {
                 .to_string()
         } else if term.starts_with('"') {
             // It's a literal, possibly with a datatype or language tag
-            if let Some(pos) = term.rfind('"') {
-                let literal = &term[..=pos]; // Include the closing quote
+            // Stored like the N-Triples/Turtle loaders store it: the lexical
+            // value without quotes (and without datatype), language tag kept.
+            if let Some(pos) = term.rfind('"').filter(|pos| *pos > 0) {
                 let rest = &term[pos + 1..]; // After the closing quote
-                let mut result = literal.to_string();
-                if rest.starts_with("^^") {
-                    // It's a typed literal
-                    let datatype = rest[2..].trim();
-                    let resolved_datatype = self.resolve_term(datatype);
-                    result.push_str("^^");
-                    result.push_str(&resolved_datatype);
-                } else if rest.starts_with('@') {
+                let mut result = term[1..pos].to_string();
+                if rest.starts_with('@') {
                     // It's a language-tagged literal
                     result.push_str(rest);
                 }
